@@ -65,6 +65,11 @@ class H(BaseHTTPRequestHandler):
         rh = self.headers.get("Range")
         maxr = int(q.get("maxr", self.max_ranges))
         boundary = q.get("b", self.boundary)
+        if q.get("fresh", "1") != "0":
+            # real servers choose a new boundary for every response
+            with LOCK:
+                H.counter = getattr(H, "counter", 0) + 1
+                boundary = "%s%04x" % (boundary, H.counter & 0xffff)
         ranges = None
         if rh:
             m = re.match(r"^bytes=(.*)$", rh.strip())
